@@ -173,3 +173,50 @@ func init() {
 		runConfigMergeRule(c, "X.config", nil)
 	}})
 }
+
+func init() {
+	register(&Property{ID: "X-globals", NeedSSA: true, Decided: "dump", NotDecided: "-", Run: func(c *Ctx) {
+		for _, fn := range c.P.ModuleSSAFuncs() {
+			if fn.Origin() != nil {
+				continue
+			}
+			bk := baseFuncKey(fn)
+			if strings.HasSuffix(bk, "init") || strings.Contains(bk, "init#") {
+				continue
+			}
+			allInstrs(fn, false, func(_ *ssa.Function, ins ssa.Instruction) {
+				var addr ssa.Value
+				switch x := ins.(type) {
+				case *ssa.Store:
+					addr = x.Addr
+				case *ssa.MapUpdate:
+					addr = x.Map
+				}
+				if addr == nil {
+					return
+				}
+				_, root, _ := fieldChain(addr)
+				var g *ssa.Global
+				switch r := root.(type) {
+				case *ssa.Global:
+					g = r
+				case *ssa.UnOp:
+					g, _ = r.X.(*ssa.Global)
+				}
+				if g != nil && g.Pkg != nil && strings.HasPrefix(g.Pkg.Pkg.Path(), modPath) {
+					fmt.Printf("globalwrite %s.%s in %s @%s\n", shortPkg(g.Pkg.Pkg.Path()), g.Name(), FuncKey(fn), c.P.Pos(ins.Pos()))
+				}
+			})
+		}
+	}})
+}
+
+func init() {
+	register(&Property{ID: "X-namewire", NeedSSA: true, Decided: "dump", NotDecided: "-", Run: func(c *Ctx) {
+		fs, n := nameWireFindings(c.P)
+		fmt.Println("sites", n)
+		for _, f := range fs {
+			fmt.Printf("namewire %s: %s passes field %s as parameter %s @%s\n", FuncKey(f.Fn), calleeName(f.Call), f.Field, f.Param, c.P.Pos(f.Call.Pos()))
+		}
+	}})
+}
